@@ -566,7 +566,7 @@ class Interp:
             if isinstance(base, Sym):
                 if (base.tag, e.attr) in self.heap:
                     return self.heap[(base.tag, e.attr)]   # attribute of a symbolic object, whatever name it is reached through
-                if base.tag == "self" and isinstance(e.ctx, ast.Load) and self.cls is not None:
+                if base.tag in ("self", "cls") and isinstance(e.ctx, ast.Load) and self.cls is not None:
                     cv = self._class_const(self.cls, e.attr, depth)    # a class-level constant read through the instance
                     if cv is not None:
                         return cv
@@ -591,7 +591,13 @@ class Interp:
         if isinstance(e, ast.Dict):
             d = {}
             for k, v in zip(e.keys, e.values):
-                kv = self.ev(k, env, depth) if k is not None else UNKNOWN
+                if k is None:
+                    other = self.ev(v, env, depth)          # {**a, **b}: the entries of a, then those of b
+                    if not isinstance(other, dict):
+                        return UNKNOWN
+                    d.update(other)
+                    continue
+                kv = self.ev(k, env, depth)
                 if kv is UNKNOWN:
                     return UNKNOWN
                 d[self._hashable(kv)] = self.ev(v, env, depth)
@@ -1065,6 +1071,9 @@ class Interp:
                 return []
             if nm in ("set", "dict") and not args:
                 return set() if nm == "set" else {}
+            if nm == "dict" and len(args) == 1 and isinstance(args[0], list) and not kwargs and "dict" not in env \
+                    and all(isinstance(x_, (list, tuple)) and len(x_) == 2 for x_ in args[0]):
+                return {self._hashable(k_): v_ for k_, v_ in args[0]}
             if nm == "dict" and len(args) == 1 and isinstance(args[0], dict) and not kwargs and "dict" not in env:
                 d_ = DDict(args[0]) if isinstance(args[0], DDict) else dict(args[0])      # shallow: the values stay shared
                 if isinstance(args[0], DDict):
@@ -1235,8 +1244,11 @@ class Interp:
                 if target is not None and (target not in self.fn_stack[-3:] or self.allow_recursion):
                     from .frontend import decorators as _decos
                     is_static = any(d.split(".")[-1] == "staticmethod" for d in _decos(target.node))
+                    is_clsm = any(d.split(".")[-1] == "classmethod" for d in _decos(target.node))
                     params = target.params if is_static else target.params[1:]
                     cenv = {"self": env.get("self", Sym("self"))}
+                    if is_clsm and target.params:
+                        cenv[target.params[0]] = Sym("cls")          # class constants are read through it (see the attribute rule for 'cls')
                     for k, v in env.items():
                         if k.startswith("self."):
                             cenv[k] = v
@@ -1258,6 +1270,13 @@ class Interp:
                         if k.startswith("self."):
                             env[k] = v
                     return rv
+        if nm == "format" and isinstance(c.func, ast.Attribute) and not kwargs and args is not None:
+            fmt_ = self.ev(c.func.value, env, depth)
+            if isinstance(fmt_, str) and all(isinstance(a_, (int, str, float)) and not isinstance(a_, bool) for a_ in args):
+                try:
+                    return fmt_.format(*args)
+                except (IndexError, KeyError, ValueError):
+                    return UNKNOWN
         if isinstance(c.func, ast.Attribute) and nm in _CONTAINER_METHODS and args is not None:
             base = self.ev(c.func.value, env, depth)
             if isinstance(base, list):
@@ -1279,6 +1298,12 @@ class Interp:
                     return None
                 if nm == "extend" and args and isinstance(args[0], list):
                     base.extend(args[0])
+                    return None
+                if nm == "extend" and args and isinstance(args[0], dict):
+                    base.extend(list(args[0].keys()))          # iterating a dict yields its keys
+                    return None
+                if nm == "extend" and args and isinstance(args[0], set):
+                    base.extend(sorted(args[0], key=repr))
                     return None
                 if nm in ("pop", "popleft") and base:
                     i = args[0] if args and isinstance(args[0], int) else (0 if nm == "popleft" else -1)
@@ -1314,6 +1339,11 @@ class Interp:
                 return None
             if isinstance(base, dict) and nm == "update" and len(args) == 1 and isinstance(args[0], dict):
                 base.update(args[0])
+                return None
+            if isinstance(base, dict) and nm == "update" and len(args) == 1 and isinstance(args[0], list) \
+                    and all(isinstance(x_, (list, tuple)) and len(x_) == 2 for x_ in args[0]):
+                for k_, v_ in args[0]:
+                    base[self._hashable(k_)] = v_
                 return None
             if isinstance(base, dict) and nm == "pop" and args:
                 return base.pop(self._hashable(args[0]), args[1] if len(args) > 1 else UNKNOWN)
@@ -1496,6 +1526,11 @@ def _install():
         return rv
 
     def _hashable(self, v):
+        if v is UNKNOWN:
+            # a key the model does not know: whatever is looked up in that table afterwards is not followed
+            if not any("a table is keyed by a value the model does not follow" in u_ for u_ in self.undecided):
+                self.undecided.append("a table is keyed by a value the model does not follow")
+            return "?unknown-key"
         if isinstance(v, Sym):
             return v.tag
         if isinstance(v, list):
